@@ -22,7 +22,7 @@ import pickletools
 import struct
 from typing import Any, Dict, List, Optional, Tuple
 
-from .minieval import _MISSING, Evaluator, PyRaise, Record, ReturnValue, Unsupported
+from .minieval import PyIter, _MISSING, Evaluator, PyRaise, Record, ReturnValue, Unsupported
 from .model import ClassInfo, FuncInfo, Module, Repo, dotted
 
 _PT = {o.name: o for o in pickletools.opcodes}
@@ -54,6 +54,11 @@ class Instance:
         self.fields: Dict[str, Any] = {}
 
     def sa_attr(self, name: str):
+        if self.oe.forced_attrs:
+            for k in self.oe.repo.mro_classes(self.c):
+                prov = self.oe.forced_attrs.get((k.qualname, name))
+                if prov is not None:
+                    return prov(self)
         if name in self.fields:
             return self.fields[name]
         if name == "__class__":
@@ -62,6 +67,9 @@ class Instance:
 
     def sa_setattr(self, name: str, v):
         self.fields[name] = v
+
+    def sa_iter(self):
+        return self.oe.class_getattr(self.c, "__iter__", self)()
 
     def __repr__(self):
         return f"<{self.c.name} instance arg={self.fields.get('arg')!r}>"
@@ -116,16 +124,49 @@ class _Noop:
         return None
 
 
+# standard-library modules whose functions are pure functions of plain values (no I/O, no global state): admitted as the
+# specification of themselves when every argument is a plain Python value
+PURE_STDLIB = {"textwrap", "string", "posixpath", "fnmatch", "keyword", "unicodedata", "operator", "itertools", "math", "_compat_pickle", "binascii", "base64", "difflib", "shlex"}
+
+
+def _pure_attr(modname: str, name: str):
+    import importlib
+
+    mod = importlib.import_module(modname)
+    if not hasattr(mod, name):
+        raise PyRaise("AttributeError")
+    v = getattr(mod, name)
+    if callable(v) and not isinstance(v, type):
+        def call(*a, **k):
+            r = v(*a, **k)
+            return list(r) if hasattr(r, "__next__") else r
+
+        return _Spec(call, f"{modname}.{name}")
+    if isinstance(v, (str, bytes, int, float, tuple, frozenset, dict, list, set)):
+        return v
+    raise Unsupported(f"external attribute {modname}.{name}")
+
+
 class ModuleRef:
     def __init__(self, name: str):
         self.name = name
 
     def sa_attr(self, name: str):
         q = f"{self.name}.{name}"
+        if self.name in PURE_STDLIB:
+            return _pure_attr(self.name, name)
         if q in SPEC_CALLABLES:
             return SPEC_CALLABLES[q]
         if q in SPEC_CONSTANTS:
             return SPEC_CONSTANTS[q]
+        if self.name == "ast" and isinstance(getattr(ast, name, None), type):
+            return _PyType(getattr(ast, name))
+        if self.name == "builtins":
+            import builtins as _b
+
+            if hasattr(_b, name):
+                return Record("builtin", {"name": name})
+            raise PyRaise("AttributeError")
         raise Unsupported(f"external attribute {q}")
 
 
@@ -143,20 +184,40 @@ class _Spec:
                 raise Unsupported(f"{self.name} applied to an abstract object")
         try:
             return self.fn(*args, **kw)
+        except RecursionError:
+            raise PyRaise("RecursionError")
+        except AttributeError:
+            raise PyRaise("AttributeError")
         except struct.error:
             raise PyRaise("struct.error")
         except (ValueError, TypeError, OverflowError, UnicodeError, KeyError, IndexError) as ex:
             raise PyRaise(type(ex).__name__)
 
 
+def _listed(fn):
+    return lambda *a, **k: list(fn(*a, **k))
+
+
+def _defaultdict(factory=None):
+    from collections import defaultdict
+
+    return defaultdict(factory.t if isinstance(factory, _PyType) else factory)
+
+
 SPEC_CALLABLES = {
+    "ast.unparse": _Spec(ast.unparse, "ast.unparse"),
+    "ast.dump": _Spec(ast.dump, "ast.dump"),
+    "ast.walk": _Spec(_listed(ast.walk), "ast.walk"),
+    "ast.iter_child_nodes": _Spec(_listed(ast.iter_child_nodes), "ast.iter_child_nodes"),
+    "ast.iter_fields": _Spec(_listed(ast.iter_fields), "ast.iter_fields"),
+    "collections.defaultdict": _Spec(_defaultdict, "collections.defaultdict"),
     "struct.pack": _Spec(struct.pack, "struct.pack"),
     "struct.calcsize": _Spec(struct.calcsize, "struct.calcsize"),
     "struct.Struct": _Spec(struct.Struct, "struct.Struct"),
 }
 import pickle as _pickle_spec  # constants of the reader's side only; nothing is unpickled
 
-SPEC_CONSTANTS = {"pickle.HIGHEST_PROTOCOL": _pickle_spec.HIGHEST_PROTOCOL, "pickle.DEFAULT_PROTOCOL": _pickle_spec.DEFAULT_PROTOCOL, "sys.maxsize": __import__("sys").maxsize, "sys.byteorder": __import__("sys").byteorder}
+SPEC_CONSTANTS = {"sys.builtin_module_names": __import__("sys").builtin_module_names, "sys.stdlib_module_names": __import__("sys").stdlib_module_names, "pickle.HIGHEST_PROTOCOL": _pickle_spec.HIGHEST_PROTOCOL, "pickle.DEFAULT_PROTOCOL": _pickle_spec.DEFAULT_PROTOCOL, "sys.maxsize": __import__("sys").maxsize, "sys.byteorder": __import__("sys").byteorder}
 _BUILTIN_SPECS = {
     "repr": _Spec(repr, "repr"), "ascii": _Spec(ascii, "ascii"),
     "abs": _Spec(abs, "abs"), "divmod": _Spec(divmod, "divmod"), "hex": _Spec(hex, "hex"), "round": _Spec(round, "round"),
@@ -175,6 +236,10 @@ class ObjEval:
         self.depth = 0
         self.steps = 0
         self.special_attrs = {}  # (class qualname, attr) -> value provider
+        self._defaults: Dict[tuple, Any] = {}
+        self._memo_results: Dict[tuple, Any] = {}
+        self.forced_attrs: Dict[tuple, Any] = {}  # (class qualname, attr) -> provider(instance): the abstract world's answer, whatever the instance stores
+        self.externals: Dict[str, Any] = {}  # qualified external name -> callable/value supplied by a check's abstract world
 
     # ------------------------------------------------------------------ references
     def ref(self, c: ClassInfo) -> ClassRef:
@@ -226,6 +291,8 @@ class ObjEval:
                 if "enum.Enum" in self.repo.mro(k) and not name.startswith("_"):
                     return ("enum-member", {"name": name, "value": v})
                 return v
+        if name in ("visit", "generic_visit") and isinstance(receiver, Instance) and "ast.NodeVisitor" in self.repo.mro(c):
+            return _NodeVisitorMethod(self, receiver, name)
         raise PyRaise("AttributeError")
 
     def special(self, c: ClassInfo, name: str):
@@ -303,13 +370,44 @@ class ObjEval:
                 break
         return inst
 
+    def default_value(self, f: FuncInfo, name: str, expr: ast.AST):
+        """A parameter default is evaluated once, when the `def` runs, and that one object is handed to every call that omits
+        the argument (so a mutable default is shared by all of them, as in Python)."""
+        key = (f.qualname, id(f.node), name)
+        if key not in self._defaults:
+            self._defaults[key] = OEvaluator(self, {}, f.module).ev(expr)
+        return self._defaults[key]
+
     def call_func(self, f: FuncInfo, args: list, kw: dict, owner: Optional[ClassInfo]):
+        memo_key = None
+        if any((dotted(d.func if isinstance(d, ast.Call) else d) or "").split(".")[-1] in ("lru_cache", "cache") for d in f.node.decorator_list):
+            # functools.lru_cache / cache: one result object per distinct argument tuple for the life of the process
+            try:
+                memo_key = (f.qualname, tuple(args), tuple(sorted(kw.items())))
+                hash(memo_key)
+            except TypeError:
+                raise PyRaise("TypeError")
+            if memo_key in self._memo_results:
+                return self._memo_results[memo_key]
+        r = self._call_func(f, args, kw, owner)
+        if memo_key is not None:
+            self._memo_results[memo_key] = r
+        return r
+
+    def _call_func(self, f: FuncInfo, args: list, kw: dict, owner: Optional[ClassInfo]):
         self.depth += 1
         try:
             if self.depth > MAX_DEPTH:
                 raise Unsupported("call depth")
             env = bind_args(f, args, kw, self, owner)
             ev = OEvaluator(self, env, f.module, cls_scope=None, func_owner=owner)
+            if _is_generator(f.node):
+                # a generator function is run eagerly and its values handed out through a one-shot iterator: exact whenever
+                # the consumer drains it before anything else observes state the generator writes (list(...), a for loop
+                # that does not touch that state) - which is how the analyses are consumed
+                ev.yields = []
+                ev.run_body(f.node.body)
+                return PyIter(ev.yields, f"generator {f.name}")
             return ev.run_body(f.node.body)
         finally:
             self.depth -= 1
@@ -323,6 +421,8 @@ class ObjEval:
             v = m.assigns[name][0]
             if isinstance(v, (ast.Constant, ast.Tuple, ast.List, ast.Dict, ast.BinOp, ast.UnaryOp, ast.Set)):
                 return OEvaluator(self, {}, m).ev(v)
+            if isinstance(v, ast.Call) and isinstance(v.func, ast.Name) and v.func.id in ("frozenset", "set", "tuple", "list", "dict") and len(v.args) <= 1 and not v.keywords:
+                return OEvaluator(self, {}, m).ev(v)  # a container built once at import from constants
             raise Unsupported(f"module-level name {name} = {ast.unparse(v)[:40]}")
         if name in m.imports:
             q = m.imports[name]
@@ -332,12 +432,16 @@ class ObjEval:
                 return self.ref(lk)
             if isinstance(lk, FuncInfo):
                 return FuncRef(self, lk)
+            if q in self.externals:
+                return self.externals[q]
             if q in SPEC_CALLABLES:
                 return SPEC_CALLABLES[q]
             if q in SPEC_CONSTANTS:
                 return SPEC_CONSTANTS[q]
-            if q in ("struct", "pickletools", "ast", "sys", "io", "re", "abc", "enum", "typing", "marshal", "pickle"):
+            if q in ("struct", "pickletools", "ast", "sys", "io", "re", "abc", "enum", "typing", "marshal", "pickle", "builtins", "json", "collections") or q in PURE_STDLIB:
                 return ModuleRef(q)
+            if "." in q and q.rsplit(".", 1)[0] in PURE_STDLIB:
+                return _pure_attr(*q.rsplit(".", 1))
             if q.startswith("typing.") or q in ("abc.ABC", "abc.abstractmethod", "enum.Enum"):
                 return Record("typing", {"name": q})
             raise Unsupported(f"imported name {name} -> {q}")
@@ -345,6 +449,47 @@ class ObjEval:
 
 
 _POISON = object()
+
+
+def _is_generator(fn: ast.AST) -> bool:
+    todo = list(fn.body)
+    while todo:
+        n = todo.pop()
+        if isinstance(n, (ast.Yield, ast.YieldFrom)):
+            return True
+        if isinstance(n, (ast.FunctionDef, ast.AsyncFunctionDef, ast.Lambda, ast.ClassDef)):
+            continue
+        todo.extend(ast.iter_child_nodes(n))
+    return False
+
+
+class _NodeVisitorMethod:
+    """ast.NodeVisitor.visit / generic_visit (Lib/ast.py), for instances of repository classes that derive from it: dispatch
+    on the node's class name to the instance's own visit_<Class>, otherwise visit every child node."""
+
+    sa_callable = True
+
+    def __init__(self, oe, receiver, name):
+        self.oe, self.receiver, self.name = oe, receiver, name
+
+    def __call__(self, node):
+        if not isinstance(node, ast.AST):
+            raise Unsupported("NodeVisitor applied to something that is not an ast node")
+        if self.name == "visit":
+            try:
+                m = self.oe.class_getattr(self.receiver.c, "visit_" + type(node).__name__, self.receiver)
+            except PyRaise:
+                m = self.oe.class_getattr(self.receiver.c, "generic_visit", self.receiver)
+            return m(node)
+        visit = self.oe.class_getattr(self.receiver.c, "visit", self.receiver)
+        for _fld, value in ast.iter_fields(node):
+            if isinstance(value, list):
+                for item in value:
+                    if isinstance(item, ast.AST):
+                        visit(item)
+            elif isinstance(value, ast.AST):
+                visit(value)
+        return None
 
 
 class _ClsRecorder:
@@ -391,14 +536,14 @@ def bind_args(f: FuncInfo, args: list, kw: dict, oe: ObjEval, owner) -> dict:
             if n in kw:
                 env[n] = kw.pop(n)
             elif n in defaults:
-                env[n] = OEvaluator(oe, {}, f.module).ev(defaults[n])
+                env[n] = oe.default_value(f, n, defaults[n])
             else:
                 raise PyRaise("TypeError")
     for k, d in zip(a.kwonlyargs, a.kw_defaults):
         if k.arg in kw:
             env[k.arg] = kw.pop(k.arg)
         elif d is not None:
-            env[k.arg] = OEvaluator(oe, {}, f.module).ev(d)
+            env[k.arg] = oe.default_value(f, k.arg, d)
         else:
             raise PyRaise("TypeError")
     if a.kwarg:
@@ -483,6 +628,14 @@ class OEvaluator(Evaluator):
     def getattr(self, v, attr: str):
         if hasattr(v, "sa_attr") and not isinstance(v, Record):
             return v.sa_attr(attr)
+        if isinstance(v, ast.AST):
+            # a real syntax-tree node as data: plain field access (nothing of the repository runs)
+            if attr.startswith("__"):
+                raise Unsupported(f"attribute .{attr} of an ast node")
+            try:
+                return getattr(v, attr)
+            except AttributeError:
+                raise PyRaise("AttributeError")
         if isinstance(v, Record):
             if attr in v.fields:
                 return v.fields[attr]
@@ -495,7 +648,7 @@ class OEvaluator(Evaluator):
             if attr in ("size", "format"):
                 return getattr(v, attr)
             raise Unsupported(f"attribute .{attr} of a struct.Struct")
-        if isinstance(v, (str, bytes, int, list, dict, tuple, float)) and not isinstance(v, bool):
+        if isinstance(v, (str, bytes, int, list, dict, tuple, float, set, frozenset)) and not isinstance(v, bool):
             return _PyMethod(v, attr)
         raise Unsupported(f"attribute .{attr} of a {type(v).__name__}")
 
@@ -545,8 +698,14 @@ class OEvaluator(Evaluator):
                 return _PyType(type(o))
             if fn.id == "len" and len(e.args) == 1:
                 o = self.ev(e.args[0])
-                if isinstance(o, (str, bytes, bytearray, list, tuple, dict, set)):
+                if isinstance(o, (str, bytes, bytearray, list, tuple, dict, set, frozenset)):
                     return len(o)
+                if isinstance(o, Instance):
+                    try:
+                        m = self.oe.class_getattr(o.c, "__len__", o)
+                    except PyRaise:
+                        raise PyRaise("TypeError")
+                    return m()
                 raise PyRaise("TypeError")
             if fn.id == "int" and len(e.args) == 1:
                 o = self.ev(e.args[0])
@@ -597,6 +756,20 @@ class OEvaluator(Evaluator):
                     kw[k.arg] = self.ev(k.value)
             return f(*args, **kw)
         return _MISSING
+
+    def truth(self, v) -> bool:
+        if isinstance(v, Instance):
+            for dunder in ("__bool__", "__len__"):
+                try:
+                    m = self.oe.class_getattr(v.c, dunder, v)
+                except PyRaise:
+                    continue
+                r = m()
+                return bool(r) if dunder == "__bool__" else r != 0
+            return True
+        if isinstance(v, (ClassRef, BoundMethod, _PyType, ModuleRef)):
+            return True
+        return super().truth(v)
 
     def isinstance(self, v, t) -> bool:
         ts = t if isinstance(t, tuple) else (t,)
@@ -699,6 +872,39 @@ class OEvaluator(Evaluator):
             return
         if isinstance(st, ast.Pass):
             return
+        if isinstance(st, ast.Expr) and isinstance(st.value, (ast.Yield, ast.YieldFrom)):
+            ys = getattr(self, "yields", None)
+            if ys is None:
+                raise Unsupported("yield outside an interpreted generator function")
+            if isinstance(st.value, ast.Yield):
+                ys.append(self.ev(st.value.value) if st.value.value is not None else None)
+            else:
+                from .minieval import _as_iterable
+
+                seq = _as_iterable(self.ev(st.value.value))
+                if seq is None:
+                    raise Unsupported("yield from a non-iterable")
+                ys.extend(seq)
+            return
+        if isinstance(st, ast.AugAssign) and isinstance(st.target, ast.Attribute):
+            obj = self.ev(st.target.value)
+            cur = self.getattr(obj, st.target.attr)
+            val = self.ev(st.value)
+            if isinstance(cur, set) and isinstance(st.op, ast.BitOr) and isinstance(val, (set, frozenset)):
+                cur |= val  # in place, like Python: the object every holder of the set sees
+                new = cur
+            elif isinstance(cur, list) and isinstance(st.op, ast.Add) and isinstance(val, (list, tuple)):
+                cur.extend(val)
+                new = cur
+            else:
+                new = self.ev(ast.BinOp(left=_Lit(cur), op=st.op, right=_Lit(val)))
+            if hasattr(obj, "sa_setattr"):
+                obj.sa_setattr(st.target.attr, new)
+            elif isinstance(obj, Record):
+                obj.fields[st.target.attr] = new
+            else:
+                raise Unsupported("augmented attribute store on a non-object")
+            return
         super()._block([st])
 
 
@@ -773,13 +979,15 @@ class _ExcType:
 
 _PY_CLASSMETHODS = {(int, "from_bytes")}
 _PY_METHODS = {
-    str: {"encode", "split", "rsplit", "startswith", "endswith", "strip", "lstrip", "rstrip", "join", "format", "lower", "upper", "replace", "count", "isascii", "isdigit", "isalpha", "find", "rfind", "partition", "rpartition", "splitlines", "zfill", "isidentifier", "isprintable"},
+    str: {"islower", "isupper", "istitle", "isspace", "isalnum", "isdecimal", "isnumeric", "title", "capitalize", "casefold", "swapcase", "removeprefix", "removesuffix", "expandtabs", "center", "ljust", "rjust", "encode", "split", "rsplit", "startswith", "endswith", "strip", "lstrip", "rstrip", "join", "format", "lower", "upper", "replace", "count", "isascii", "isdigit", "isalpha", "find", "rfind", "partition", "rpartition", "splitlines", "zfill", "isidentifier", "isprintable"},
     bytes: {"decode", "startswith", "endswith", "hex", "join", "replace", "find", "rstrip", "strip", "lstrip", "split", "count"},
     int: {"to_bytes", "bit_length"},
     float: {"is_integer", "hex"},
     list: {"append", "insert", "extend", "index", "count", "copy", "pop", "sort", "reverse"},
     tuple: {"index", "count"},
-    dict: {"get", "copy", "setdefault"},
+    dict: {"get", "copy", "setdefault", "update", "pop"},
+    set: {"add", "discard", "update", "union", "copy", "issubset", "issuperset", "intersection", "difference", "remove"},
+    frozenset: {"union", "issubset", "issuperset", "intersection", "difference"},
 }
 
 
@@ -804,7 +1012,7 @@ class _PyMethod:
         if isinstance(self.v, dict) and self.name in ("items", "keys", "values"):
             return _DictItems(getattr(self.v, self.name)())
         for a in list(args) + list(kw.values()):
-            if isinstance(a, (ClassRef, Instance)) and not isinstance(self.v, (list, dict)):
+            if isinstance(a, (ClassRef, Instance)) and not isinstance(self.v, (list, dict, set)):
                 raise Unsupported("abstract object passed to a value method")
         try:
             return getattr(self.v, self.name)(*args, **kw)
